@@ -66,6 +66,33 @@ def mvn_cases(col, rng, n):
         col.add(bad)
 
 
+def integer_penalty_cases(col):
+    """a hand-written INTEGER penalty matrix (jnp.array([[1, -1, 0, 0], ...]) is int32) with a fractional variance / smoothing parameter: all constructors
+    still give the Gaussian density on the range space of K / var"""
+    Ki = np.array([[1, -1, 0, 0], [-1, 2, -1, 0], [0, -1, 2, -1], [0, 0, -1, 1]])
+    lam, Q = np.linalg.eigh(Ki.astype(np.float64))
+    lam[np.abs(lam) < 1e-9] = 0.0
+    x = np.array([0.3, -1.2, 0.7, 2.0])
+    xj = jnp.asarray(x, jnp.float32)
+    Kj = jnp.array(Ki)
+    for var in (2.5, 0.4):
+        want = ref_logpdf(x, np.zeros(4), lam / var, Q, 3)
+        lpd = float(np.sum(np.log(lam[lam != 0])))
+        ctors = {"from_penalty": lambda: MVND.from_penalty(0.0, var, Kj), "from_penalty+rank+logpdet": lambda: MVND.from_penalty(0.0, var, Kj, rank=3, log_pdet=lpd),
+                 "from_penalty_smooth": lambda: MVND.from_penalty_smooth(0.0, 1.0 / var, Kj), "from_penalty_smooth+rank": lambda: MVND.from_penalty_smooth(0.0, 1.0 / var, Kj, rank=3)}
+        bad = None
+        for name, mk in ctors.items():
+            try:
+                got = float(mk().log_prob(xj))
+            except Exception as e:
+                got = f"{type(e).__name__}: {str(e)[:80]}"
+            if isinstance(got, str) or not np.isclose(got, want, rtol=2e-3, atol=5e-3):
+                bad = {"sig": f"native::mvn_degen::integer_penalty::{name.split('+')[0]}", "what": f"{name} with an int32 penalty matrix and var={var}: log_prob={got}, Gaussian density on the range space={want:.5f}",
+                       "input": {"penalty": Ki.tolist(), "penalty_dtype": str(Kj.dtype), "var": var}}
+                break
+        col.add(bad)
+
+
 def tiny_eigenvalue_cases(col):
     """non-zero eigenvalues below the default tolerance with the rank supplied"""
     D = np.diff(np.eye(5), axis=0)
@@ -269,6 +296,10 @@ def bounded(tier, seed):
     n = 25 if tier == "quick" else 600
     mvn_cases(col, rng, n)
     tiny_eigenvalue_cases(col)
+    try:
+        integer_penalty_cases(col)
+    except Exception as e:
+        col.add({"sig": f"native::mvn_degen::exception::{type(e).__name__}", "what": str(e)[:200], "input": {"scenario": "integer penalty matrix"}})
     col.add(user_tolerance_case())
     col.add(high_dimension_case())
     batch_cases(col, rng)
@@ -284,7 +315,7 @@ def bounded(tier, seed):
     copula_cases(col)
     return {
         "evaluations": col.evals, "distinct_nontrivial": col.evals,
-        "rule": (f"BOUNDED: {n} seeded degenerate-MVN cases (dim 1-4, rank 0..dim, variance in {{0.37,1,5}}) x 7 constructor variants against an eigendecomposition "
+        "rule": (f"BOUNDED: {n} seeded degenerate-MVN cases (dim 1-4, rank 0..dim, variance in {{0.37,1,5}}) x 7 constructor variants (plus a hand-written int32 penalty matrix with fractional variances 2.5 and 0.4 x 4 penalty constructors) against an eigendecomposition "
                  "reference incl. null-space invariance; RW1 penalty with eigenvalues scaled by 1e7 / 1e-7 and supplied rank; user tolerances 1e-12 / 0.5 with derived rank and log_pdet; a 50-dimensional rank-49 penalty with variance 50 / 0.02 (pseudo-determinant outside the float32 range) through four constructors; a (2,2) batch; the sampling factor S (S S' = pseudo-inverse, columns = rank, samples in the range space) for well- and ill-conditioned precisions, and for rotated (non-diagonal) full-rank / rank-deficient precisions through 6 constructor variants (supplied rank as python int, numpy integer, with log_pdet) incl. the empirical covariance of 4000 draws; Gaussian copula also for batches of dependences with 1-3 batch axes (non-symmetric, non-square); algebraic sigmoid on a 9-point grid and in the tails (|x| up to 9999, |y| up to 0.9999, closed-form float64 reference, eager and jit) "
                  "(inverse, |forward| <= 1, ldj = log of jax.grad); Gaussian copula on 7 dependences in (-1,1) x 8 points (incl. coordinates 1e-8, 1e-10 and the largest float32 below 1) x validate_args in {False, True} against the closed form, "
                  f"plus a matrix batch. Sampling-distribution clauses are not checked (not applicable to this family). seed={seed}"),
